@@ -28,20 +28,20 @@ def run(ctx, R):
     R.not_decided = ['crash/restart re-delivery (needs broker semantics)', "get_message_batch's read loop on sparse offsets / timeouts"]
     declare(R, {**kafka.RULES, **lifecycle.RULES, **flow.RULES, **holds.RULES}, RULES, FLOORS)
     M = ctx.model
-    kafka.check_autocommit(ctx, R)
-    kafka.check_commit_via_ref(ctx, R)
-    kafka.check_tuple_layout(ctx, R)
-    kafka.check_offset_algebra(ctx, R)
-    kafka.check_seed(ctx, R)
-    kafka.check_read_range(ctx, R)
+    R.run(kafka.check_autocommit, ctx, R)
+    R.run(kafka.check_commit_via_ref, ctx, R)
+    R.run(kafka.check_tuple_layout, ctx, R)
+    R.run(kafka.check_offset_algebra, ctx, R)
+    R.run(kafka.check_seed, ctx, R)
+    R.run(kafka.check_read_range, ctx, R)
     # the commit fires when the batch's counter reaches zero: that is only 'after processing' if _emit never releases on a
     # failure edge and retains all its holds before the first delivery
-    holds.check_emit(ctx, R)
+    R.run(holds.check_emit, ctx, R)
     for k in [k for k in R.obs if k[0] == 'EMIT-REL-TIMING']:
         del R.obs[k]
     cls = M.cls('streamz.sources', 'FromKafkaBatched')
-    lifecycle.check_stop_check(ctx, R, [(cls, cls.methods['poll_kafka'])])
-    lifecycle.check_single_flight(ctx, R, [cls])
-    flow.check_propagate(ctx, R, modules=('streamz.sources',), note_modules=())
+    R.run(lifecycle.check_stop_check, ctx, R, [(cls, cls.methods['poll_kafka'])])
+    R.run(lifecycle.check_single_flight, ctx, R, [cls])
+    R.run(flow.check_propagate, ctx, R, modules=('streamz.sources',), note_modules=())
     for k in [k for k in R.obs if k[0] == 'PROPAGATE' and 'FromKafkaBatched' not in k[1]]:
         del R.obs[k]
